@@ -3,8 +3,9 @@
    MapEntry) and parser/result.go processProto3OptionalFields (Model/Lower.v); right-hand sides
    are protoc's documented algorithms (Model/ProtocDescriptor.v). *)
 From Coq Require Import List NArith ZArith Bool.
-From PV Require Import Model.MiniProto Model.Lower Model.ProtocDescriptor.
-From PV Require Import Proofs.LowerNames.
+From PV Require Import Model.MiniProto Model.Lower Model.ProtocDescriptor Model.ValiditySpec Model.Validate.
+From PV Require Model.Resolve.
+From PV Require Import Proofs.LowerNames Proofs.Link.
 Import ListNotations.
 Open Scope N_scope.
 
@@ -54,6 +55,33 @@ Theorem C02_synthetic_oneof_names_eq_protoc : forall fields oneofs exts enums ne
 Proof. exact synthetic_oneof_names_eq_protoc_lemma. Qed.
 Print Assumptions C02_synthetic_oneof_names_eq_protoc.
 
+(* resolved_names_absolute: after an error-free resolveFieldTypes / resolveMethodTypes every reference
+   left in the descriptor is the absolute name (leading dot) of the element the lookup found (the
+   lookup is the one proved equal to protoc's in C15), with type MESSAGE / GROUP for a message and
+   ENUM for an enum; an extension number lies in an extension range of the extendee *)
+Theorem C02_resolved_type_absolute : forall L path fd fd' c tn,
+  df_type_name fd = Some (c :: tn) -> resolve_type L path fd = (fd', []) ->
+  exists n k, resolve_ref (lc_cfg L) (lc_U L) path (df_name fd) (c :: tn) true = Resolve.GDesc n k /\
+              df_type_name fd' = Some (dotc :: n) /\
+              ((k = Resolve.KMessage /\ (df_type fd' = Some DMessage \/ df_type fd' = Some DGroup)) \/
+               (k = Resolve.KEnum /\ df_type fd' = Some DEnum)).
+Proof. exact resolve_type_absolute_lemma. Qed.
+Print Assumptions C02_resolved_type_absolute.
+
+Theorem C02_resolved_extendee_absolute : forall L path X fd fd' X' stop c x,
+  df_extendee fd = Some (c :: x) -> resolve_extendee L path X fd = (fd', X', [], stop) ->
+  exists n, resolve_ref (lc_cfg L) (lc_U L) path (df_name fd) (c :: x) false = Resolve.GDesc n Resolve.KMessage /\
+            df_extendee fd' = Some (dotc :: n) /\
+            existsb (in_half_open (df_number fd)) (match info_of L n with IMsg mi => mi_extr mi | _ => [] end) = true.
+Proof. exact resolve_extendee_absolute_lemma. Qed.
+Print Assumptions C02_resolved_extendee_absolute.
+
+Theorem C02_resolved_rpc_absolute : forall L svc mtd t t',
+  resolve_rpc_type L svc mtd t = (t', []) ->
+  exists n, resolve_ref (lc_cfg L) (lc_U L) [svc] mtd t false = Resolve.GDesc n Resolve.KMessage /\ t' = dotc :: n.
+Proof. exact resolve_rpc_absolute_lemma. Qed.
+Print Assumptions C02_resolved_rpc_absolute.
+
 (* non-vacuity: foo_bar -> fooBar / FooBarEntry, _x -> X / XEntry; with fields a, _a and X_a taken,
    the synthetic oneof of a is XX_a *)
 Example C02_nonvacuous :
@@ -61,4 +89,4 @@ Example C02_nonvacuous :
   map_entry [102;111;111;95;98;97;114] = [70;111;111;66;97;114;69;110;116;114;121] /\
   json_name [95;120] = [88] /\
   oo_name [[97]; [95;97]; [88;95;97]] [97] = Some [88;88;95;97].
-Proof. repeat split; vm_compute; reflexivity. Qed.
+Proof. exact c02_example. Qed.
